@@ -77,7 +77,7 @@ PROPS = {
                       "consumed item in content order",
                 trusted=TRUSTED,
                 explanation="[P] U3b, R20, U5 get_root/children, _set_parent, Base.__init__, BlockBase.init, U8f, SequenceBase.match (no node twice); [B] well-formedness of catalogue trees; walk not under contract"),
-    "C11": dict(level="other", enum=["bounded_layout.py --only C11"],
+    "C11": dict(level="other", enum=["bounded_layout.py --only C11", "bounded_trees.py --only C11"],
                 claim="comment handling contracts: Comment.__new__ consumes exactly one comment item or restores the reader, Comment/Directive.init keep "
                       "the comment text and item, BlockBase.match restores every consumed item on failure and keeps content in item order",
                 trusted=TRUSTED,
